@@ -127,6 +127,30 @@ def handleCf (op : String) (args : List Sexp) : Option Sexp := do
               (idcStar (orderWorlds (← boolOf? rev) (← asNat? rot)) (orderDistrict d) (orderDistrict d) G o c))
         | _ => none
       pure (tagged "ok" rs)
+  | "idc_star_checked", [g, outs, conds, .list strategies] => do
+      -- as `idc_star_all`, preceded by the model's own verdict on the two fragments of Props/C08.lean
+      -- (`inFragmentCB`, `inFragmentXB`: canonical orders; they are about factual queries, where no order matters)
+      let G ← parseGraph g
+      let o ← eventOf? outs
+      let c ← eventOf? conds
+      let rs ← strategies.mapM fun s => match s with
+        | .list [rev, rot, drev] => do
+            let d ← boolOf? drev
+            pure (exceptToSexp Codec.exprToSexp
+              (idcStar (orderWorlds (← boolOf? rev) (← asNat? rot)) (orderDistrict d) (orderDistrict d) G o c))
+        | _ => none
+      let b := fun (x : Bool) => Sexp.atom (if x then "1" else "0")
+      pure (tagged "ok" (.list [.atom "frag", b (inFragmentCB sortWorlds (orderDistrict false) G o c),
+        b (inFragmentXB sortWorlds G o c), b (disjointNamesB o c || idcInvB G o c)] :: rs))
+  | "idc_star_trace", [g, outs, conds, rev, rot, drev, fuel] => do
+      -- termination search: sizes (|outcomes|, |conditions|) of every level of the line-4 recursion
+      let G ← parseGraph g
+      let o ← eventOf? outs
+      let c ← eventOf? conds
+      let dr ← boolOf? drev
+      let r := idcStarTrace (orderWorlds (← boolOf? rev) (← asNat? rot)) (orderDistrict dr) (orderDistrict dr) G (← asNat? fuel) o c
+      pure (tagged "ok" [.atom (if r.2 then "1" else "0"),
+        .list (r.1.map fun p => .list (p.map fun n => .atom (toString n)))])
   | "fscm_prob", [m, nu, ev] => do
       let r := Fscm.probEvent (← modelOf? m) (← baseValuesOf? nu) (← eventOf? ev)
       pure (tagged "ok" [.atom (toString r.num), .atom (toString r.den)])
